@@ -74,6 +74,19 @@ def dec_fails(e):
     return not int_ok(e[0])
 
 
+def dec_recursion(e):
+    """Decoding e exhausts the interpreter's recursion limit inside the JSON parser."""
+    if is_bin(e) or len(e) == 0 or e[0] == 'b' or not int_ok(e[0]):
+        return False
+    try:
+        json.loads(e[1:])
+    except RecursionError:
+        return True
+    except ValueError:
+        return False
+    return False
+
+
 def b64_ok(s):
     try:
         base64.b64decode(s)
